@@ -131,6 +131,7 @@ func (eng *Engine) LoadContracts(extra map[string]string) error {
 			return err
 		}
 	}
+	eng.ExpandTables()
 	return nil
 }
 
@@ -346,7 +347,7 @@ func (eng *Engine) InitContract(pkgPath string) (*ssa.Function, *FuncContract) {
 				for addr != nil {
 					switch a := addr.(type) {
 					case *ssa.Global:
-						if globals[a.Name()] && a.Pkg == sp && f != initFn {
+						if globals[a.Name()] && a.Pkg == sp && f != initFn && !(strings.HasPrefix(f.Name(), "init#") && f.Parent() == nil) {
 							eng.errorf("ginv: global %s.%s is written outside the package initialiser (in %s)", pkgPath, a.Name(), f)
 						}
 						addr = nil
